@@ -69,3 +69,72 @@ impl Read for SharedSink {
         Ok(n)
     }
 }
+
+/// A sink that logs every operation reaching the destination and can fail the k-th one.
+#[derive(Clone)]
+pub struct OpSink {
+    pub inner: Arc<Mutex<OpState>>,
+}
+pub struct OpState {
+    pub data: Vec<u8>,
+    pub pos: u64,
+    pub ops: Vec<(char, u64, Vec<u8>)>, // ('w', offset, bytes) ('s', target, []) ('f', 0, [])
+    pub fail_at: Option<usize>,
+    pub nops: usize,
+    pub failed: bool,
+}
+impl OpSink {
+    pub fn new(fail_at: Option<usize>) -> Self {
+        OpSink { inner: Arc::new(Mutex::new(OpState { data: vec![], pos: 0, ops: vec![], fail_at, nops: 0, failed: false })) }
+    }
+    fn tick(g: &mut OpState) -> io::Result<()> {
+        let k = g.nops;
+        g.nops += 1;
+        if g.fail_at == Some(k) {
+            g.failed = true;
+            return Err(io::Error::new(io::ErrorKind::Other, "injected fault"));
+        }
+        Ok(())
+    }
+}
+impl Write for OpSink {
+    fn write(&mut self, buf: &[u8]) -> io::Result<usize> {
+        let mut g = self.inner.lock().unwrap();
+        OpSink::tick(&mut g)?;
+        let pos = g.pos as usize;
+        if g.data.len() < pos + buf.len() {
+            g.data.resize(pos + buf.len(), 0);
+        }
+        g.data[pos..pos + buf.len()].copy_from_slice(buf);
+        let p = g.pos;
+        g.ops.push(('w', p, buf.to_vec()));
+        g.pos += buf.len() as u64;
+        Ok(buf.len())
+    }
+    fn flush(&mut self) -> io::Result<()> {
+        let mut g = self.inner.lock().unwrap();
+        OpSink::tick(&mut g)?;
+        g.ops.push(('f', 0, vec![]));
+        Ok(())
+    }
+}
+impl Seek for OpSink {
+    fn seek(&mut self, pos: SeekFrom) -> io::Result<u64> {
+        let mut g = self.inner.lock().unwrap();
+        OpSink::tick(&mut g)?;
+        let len = g.data.len() as i128;
+        let cur = g.pos as i128;
+        let np = match pos {
+            SeekFrom::Start(k) => k as i128,
+            SeekFrom::Current(k) => cur + k as i128,
+            SeekFrom::End(k) => len + k as i128,
+        };
+        if np < 0 {
+            return Err(io::Error::new(io::ErrorKind::InvalidInput, "seek before start"));
+        }
+        g.pos = np as u64;
+        let p = g.pos;
+        g.ops.push(('s', p, vec![]));
+        Ok(p)
+    }
+}
